@@ -1461,6 +1461,10 @@ static void sigwinch(int signo)
 	vi_back(TK_CTL('c'));
 }
 
+#ifdef NEATVI_VERIF
+void neatvi_verif_boundary(void);
+#endif
+
 static void vi(void)
 {
 	int xcol;
@@ -1479,6 +1483,9 @@ static void vi(void)
 	while (!xquit) {
 		int mod = 0;
 		int nrow = xrow;
+#ifdef NEATVI_VERIF
+		neatvi_verif_boundary();	/* a command starts here */
+#endif
 		int noff = ren_noeol(lbuf_get(xb, xrow), xoff);
 		int otop = xtop;
 		int oleft = xleft;
